@@ -66,6 +66,9 @@ type WorldOpts struct {
 	ViaServer    bool // go through server.ExtAuthZFilter.Check (real clock, real generator)
 	TriggerRules []*configv1.TriggerRule
 	AuthURI      string // override (e.g. with its own query)
+	// CfgHook may replace the filter configuration (e.g. after passing it through the real loader).
+	// Returning nil abandons the case as out of domain.
+	CfgHook func(w *World, cfg *oidcv1.OIDCConfig) *oidcv1.OIDCConfig
 }
 
 // World is one simulated deployment.
@@ -161,6 +164,12 @@ func NewWorld(c *Case, o WorldOpts) *World {
 	}
 	cfg.AbsoluteSessionTimeout = uint32(o.Abs / time.Second)
 	cfg.IdleSessionTimeout = uint32(o.Idle / time.Second)
+	if o.CfgHook != nil {
+		if cfg = o.CfgHook(w, cfg); cfg == nil {
+			w.IdP.Close()
+			c.Skip("config rejected by the loader")
+		}
+	}
 	w.Cfg = cfg
 
 	var inner oidc.SessionStore
@@ -478,6 +487,12 @@ func (b *Browser) absorb(r *Resp) {
 		}
 		if ma, ok := sc.Attrs["max-age"]; ok && (ma == "0" || strings.HasPrefix(ma, "-")) {
 			delete(b.Jar, sc.Name)
+			for i, n := range b.Order {
+				if n == sc.Name {
+					b.Order = append(b.Order[:i:i], b.Order[i+1:]...)
+					break
+				}
+			}
 			continue
 		}
 		if _, ok := b.Jar[sc.Name]; !ok {
